@@ -26,6 +26,21 @@ static std::string dims_str(ParMatrix* A) {
     return o.str();
 }
 
+static std::string block_rows_str(Matrix* M) {
+    std::ostringstream o; o << M->n_rows;
+    for (int i = 0; i < M->n_rows; i++) { o << " " << (M->idx1[i + 1] - M->idx1[i]);
+        for (int k = M->idx1[i]; k < M->idx1[i + 1]; k++) o << " " << M->idx2[k] << " " << num_str(M->vals[k]); }
+    return o.str();
+}
+// local state of a ParCSR matrix: fr nr fc nc ON <rows> OFF <rows> CM <cols>
+static std::string struct_str(ParCSRMatrix* A) {
+    std::ostringstream o;
+    o << A->partition->first_local_row << " " << A->local_num_rows << " " << A->partition->first_local_col << " " << A->on_proc_num_cols
+      << " ON " << block_rows_str(A->on_proc) << " OFF " << block_rows_str(A->off_proc) << " CM " << A->off_proc_column_map.size();
+    for (size_t i = 0; i < A->off_proc_column_map.size(); i++) o << " " << A->off_proc_column_map[i];
+    return o.str();
+}
+
 static void run_case(const std::string& cid, Toks& t) {
     std::string op = t.next();
     if (op == "pspmv") {
@@ -111,6 +126,17 @@ static void run_case(const std::string& cid, Toks& t) {
             if (c >= C->partition->first_local_col && c <= C->partition->last_local_col) ok = false;
         }
         o << (ok ? 1 : 0); emit_all(cid, "M", o.str()); emit0(cid, "DONE", "1");
+    } else if (op == "pstruct") {
+        // cid pstruct what <ParLit A> [<ParLit B>]   what: transpose | add | subtract | conv k op..  -> local blocks of the ParCSR result
+        std::string what = t.next(); std::vector<std::string> ops;
+        if (what == "conv") { int k = t.next_int(); for (int i = 0; i < k; i++) ops.push_back(t.next()); }
+        ParLit LA; LA.parse(t); ParLit LB; if (what == "add" || what == "subtract") LB.parse(t);
+        if (!LA.usable()) return;
+        ParCSRMatrix* A = LA.csr(); ParCSRMatrix* C = NULL;
+        if (what == "transpose") C = A->transpose();
+        else if (what == "add" || what == "subtract") { ParCSRMatrix* Bm = LB.csr(); C = (what == "add") ? A->add(Bm) : A->subtract(Bm); }
+        else { ParMatrix* M = A; for (size_t i = 0; i < ops.size(); i++) M = papply(M, ops[i]); C = M->to_ParCSR(); }
+        emit_all(cid, "S", struct_str(C)); emit_all(cid, "T", parmat_triples(C)); emit0(cid, "DONE", "1");
     } else if (op == "pbig") {
         // cid pbig B tap ppn k op1..opk     ops: F (b = A x) / T (b = A^T x), operation q uses the vector x_q
         // A (formula, n = P*B): a_ii = 2; for rows of rank p < P-1: a_{i, (p+1)B + i%B} = 1 + i%3.  One-directional chain of
